@@ -135,7 +135,7 @@ fn word_pos(t: &[Tok], w: &str, from: usize) -> Option<usize> {
     t.iter().enumerate().skip(from).find(|(_, x)| matches!(x, Tok::Word(s) if s.eq_ignore_ascii_case(w))).map(|(i, _)| i)
 }
 
-const KINDS: [&str; 10] = ["update_from_where", "select_where", "select_having", "select_having_no_group", "update_where", "delete_where", "join_on", "case_when", "conflict_target_where", "conflict_action_where"];
+const KINDS: [&str; 16] = ["join_on_cross", "join_on_left", "join_on_right", "join_on_full", "join_on_plain", "join_on_inner", "update_from_where", "select_where", "select_having", "select_having_no_group", "update_where", "delete_where", "join_on", "case_when", "conflict_target_where", "conflict_action_where"];
 
 /// render the history on one statement kind; returns the predicate tokens (None = no predicate rendered)
 fn render(kind: &str, b: B, hist: &[CT]) -> Result<Option<Vec<Tok>>, String> {
@@ -180,6 +180,15 @@ fn render(kind: &str, b: B, hist: &[CT]) -> Result<Option<Vec<Tok>>, String> {
             match &hist[0] { CT::Atom(n) => { q.join(JoinType::InnerJoin, Alias::new("u"), atom(*n)); } g => { q.join(JoinType::InnerJoin, Alias::new("u"), build(g)); } }
             to_string_q(b, &q)
         }
+        // every other join type, through its own method: the ON clause is the condition that was given, whatever the type
+        "join_on_cross" | "join_on_left" | "join_on_right" | "join_on_full" | "join_on_plain" | "join_on_inner" => {
+            if hist.len() != 1 || (kind == "join_on_full" && b == B::Mysql) { return Ok(None); }
+            let mut q = Query::select(); q.expr(Expr::val(1)).from(Alias::new("t"));
+            let c: Condition = match &hist[0] { CT::Atom(n) => atom(*n).into_condition(), g => build(g) };
+            match kind { "join_on_cross" => { q.cross_join(Alias::new("u"), c); } "join_on_left" => { q.left_join(Alias::new("u"), c); } "join_on_right" => { q.right_join(Alias::new("u"), c); }
+                "join_on_full" => { q.full_outer_join(Alias::new("u"), c); } "join_on_inner" => { q.inner_join(Alias::new("u"), c); } _ => { q.join(JoinType::Join, Alias::new("u"), c); } }
+            to_string_q(b, &q)
+        }
         "case_when" => {
             if hist.len() != 1 { return Ok(None); }
             let cs = match &hist[0] { CT::Atom(n) => CaseStatement::new().case(atom(*n), 1), g => CaseStatement::new().case(build(g), 1) };
@@ -219,7 +228,7 @@ fn render(kind: &str, b: B, hist: &[CT]) -> Result<Option<Vec<Tok>>, String> {
         "update_from_where" => slice(word_pos(&toks, "WHERE", 0), None),
         "select_where" | "update_where" | "delete_where" => slice(word_pos(&toks, "WHERE", 0), None),
         "select_having" | "select_having_no_group" => slice(word_pos(&toks, "HAVING", 0), None),
-        "join_on" => slice(word_pos(&toks, "ON", 0), None),
+        "join_on" | "join_on_cross" | "join_on_left" | "join_on_right" | "join_on_full" | "join_on_plain" | "join_on_inner" => slice(word_pos(&toks, "ON", 0), None),
         "case_when" => slice(word_pos(&toks, "WHEN", 0), word_pos(&toks, "THEN", 0)),
         "conflict_target_where" => { let c = word_pos(&toks, "CONFLICT", 0).unwrap_or(0); let d = word_pos(&toks, "DO", c); match word_pos(&toks, "WHERE", c) { Some(w) if Some(w) < d => slice(Some(w), d), _ => None } }
         "conflict_action_where" => { let d = word_pos(&toks, "DO", 0).unwrap_or(0); slice(word_pos(&toks, "WHERE", d), None) }
@@ -240,7 +249,7 @@ fn check_history(ctx: &mut Ctx, hist: &[CT], kinds: &[&str], backends: &[B]) {
             let r = render(kind, b, hist);
             NOT_AT.with(|m| m.set(0));
             let (expect, parsed) = match &r {
-                Ok(None) => { if (*kind == "join_on" || *kind == "case_when") && hist.len() != 1 { continue; } if b == B::Mysql && kind.starts_with("conflict") { continue; } ("nopred".to_string(), None) }
+                Ok(None) => { if (kind.starts_with("join_on") || *kind == "case_when") && hist.len() != 1 { continue; } if *kind == "join_on_full" && b == B::Mysql { continue; } if b == B::Mysql && kind.starts_with("conflict") { continue; } ("nopred".to_string(), None) }
                 Ok(Some(t)) => match parse_pred(t) { Some(p) => (format!("pred {}", show(&p)), Some(p)), None => (format!("unparsable {:?}", t), None) },
                 Err(e) => (format!("error {e}"), None),
             };
@@ -255,6 +264,8 @@ fn check_history(ctx: &mut Ctx, hist: &[CT], kinds: &[&str], backends: &[B]) {
                 if expect != "nopred" { ctx.oracle_fail("a statement given no condition rendered a predicate", serde_json::json!({"history": line, "kind": kind, "backend": b.name(), "rendered": expect})); }
                 continue;
             }
+            // no predicate at all means TRUE: that is a faithful rendering exactly when the supplied conditions are identically TRUE
+            let parsed = if parsed.is_none() && expect == "nopred" { Some(P::True) } else { parsed };
             match parsed {
                 None => ctx.oracle_fail("conditions were supplied but no parsable predicate was rendered", serde_json::json!({"history": line, "kind": kind, "backend": b.name(), "rendered": expect})),
                 Some(p) => {
@@ -386,7 +397,7 @@ fn check_statement_model(ctx: &mut Ctx, t: &CT, b: B) {
 
 pub fn run(ctx: &mut Ctx) {
     let thorough = ctx.tier_thorough;
-    ctx.rule = format!("bounded-exhaustive: all condition trees of depth <= {} / width <= 2 (every any/all, every negate flag, empty groups, add_option(None) members) as 1-call histories on all 10 statement positions (SELECT WHERE / HAVING with and without GROUP BY, UPDATE, UPDATE .. FROM (MySQL: the JOIN .. ON form; every predicate the statement carries is conjoined), DELETE, JOIN ON, CASE WHEN, ON CONFLICT target/action WHERE) x 3 backends, every history with a negated group also with not() called before the first and after the first add (oracle only), all ordered pairs of depth-1 trees as 2-call histories, then {} random histories (<= 4 calls, depth <= 4, width <= 3). Every third tree (thorough: every tree) also as a whole statement against the Lean statement model's condition renderer (text, values). Each: rendered predicate parsed by an independent SQL predicate parser and compared with the model's expression tree, and its 3-valued truth table (all 3^k assignments, k <= 4 atoms) compared with the AND of the supplied conditions. Non-trivial = non-empty history; distinct by request.", 2, if thorough { 60000 } else { 6000 });
+    ctx.rule = format!("bounded-exhaustive: all condition trees of depth <= {} / width <= 2 (every any/all, every negate flag, empty groups, add_option(None) members) as 1-call histories on all 16 statement positions (SELECT WHERE / HAVING with and without GROUP BY, JOIN ON for every join type through its own method, UPDATE, UPDATE .. FROM (MySQL: the JOIN .. ON form; every predicate the statement carries is conjoined), DELETE, JOIN ON, CASE WHEN, ON CONFLICT target/action WHERE) x 3 backends, every history with a negated group also with not() called before the first and after the first add (oracle only), all ordered pairs of depth-1 trees as 2-call histories, then {} random histories (<= 4 calls, depth <= 4, width <= 3). Every third tree (thorough: every tree) also as a whole statement against the Lean statement model's condition renderer (text, values). Each: rendered predicate parsed by an independent SQL predicate parser and compared with the model's expression tree, and its 3-valued truth table (all 3^k assignments, k <= 4 atoms) compared with the AND of the supplied conditions. Non-trivial = non-empty history; distinct by request.", 2, if thorough { 60000 } else { 6000 });
     if let Some(rp) = ctx.replay.clone() {
         // replay by history S-expression is not parsed back here; the random stream is deterministic by seed
         let _ = rp;
